@@ -58,3 +58,10 @@ let rec string_of_z (x : z) : string =
        string_of_z q ^ string_of_z r)
 
 let string_of_bool (b : bool) = if b then "1" else "0"
+
+let split s = List.filter (fun t -> t <> "") (String.split_on_char ' ' s)
+
+let rec split_bar acc = function
+  | [] -> (List.rev acc, [])
+  | "|" :: r -> (List.rev acc, r)
+  | x :: r -> split_bar (x :: acc) r
